@@ -8,12 +8,12 @@ RULE = ("every stimulus script of the ConnLoop.tla configurations with duplicate
         "at once from concurrent goroutines through a writer that yields inside a frame (frame contiguity, one reply per tag, own payload)")
 
 
-def own(name, script, finding):
+def own(name, script, finding, detail=None):
     return True
 
 
 def run(tier, seed):
-    cfgs = ["three-ops", "dup-tag", "flush-twice"] if tier == "quick" else \
+    cfgs = ["three-ops", "dup-tag", "flush-twice", "flush-basic"] if tier == "quick" else \
         ["three-ops", "dup-tag", "tag-reuse", "bad-frame", "flush-self", "flush-basic", "flush-twice", "flush-chain"]
     return connloop.run("C06", tier, seed, cfgs, own, RULE, 150 if tier == "quick" else None,
                         batch=(64, 10) if tier == "quick" else (64, 250))
